@@ -63,8 +63,11 @@ def worldOf (j : Json) : Except String World := do
     | _ => pure [])
   let report ← j.getObjValAs? Bool "report"
   let dump ← (match j.getObjVal? "ast_dump" with | .ok d => raisedOf d | .error _ => pure .ok)
+  let repFail : Option Raised ← (match j.getObjVal? "report_fail" with
+    | .ok d => do (match ← raisedOf d with | .raised r => pure (some r) | .ok => pure none)
+    | .error _ => pure none)
   pure { astDump := dump, validate := fun _ => valid, env := envTree (← varsOf j "env"), dotenv := envTree (← varsOf j "dotenv"), front := front,
-         kinds := kinds, genFail := fun t => (gfl.find? (fun p => p.1 == t)).map (·.2), reportConfigured := report }
+         kinds := kinds, genFail := fun t => (gfl.find? (fun p => p.1 == t)).map (·.2), reportConfigured := report, reportFail := repFail }
 
 def commandOf (j : Json) : Except String Sys.Command := do
   let k ← j.getObjValAs? String "kind"
